@@ -40,6 +40,18 @@ def clause_status(fn_result):
     return {k: ("proved" if v else "unproved") for k, v in out.items()}
 
 
+def backend_counts(results):
+    """discharged obligations per solver back end (stage 1 = z3 5.1 in process; later stages = fresh solver processes)."""
+    out = {}
+    for r in results:
+        for o in r.get("obligations", []):
+            if o["kind"] in PROOF_KINDS and o["status"] == "proved":
+                b = o.get("backend") or "z3"
+                b = "z3 5.1 in-process (fast cfg)" if "fast cfg" in b else "z3 5.1 cli (fresh process, seed portfolio)" if "z3 5.1 cli" in b else "z3 4.8.12 cli (fresh process)" if "4.8.12" in b else b
+                out[b] = out.get(b, 0) + 1
+    return out
+
+
 def aux_status(fn_result):
     """auxiliary obligations (loop invariants: established / preserved, loop frames): clause text -> proved iff all its obligations are."""
     out = {}
@@ -214,13 +226,13 @@ def main(argv=None):
         "coverage": {
             "obligations": n_obl + static.get("checks", 0), "discharged": n_dis + static.get("passed", 0),
             "checker_cmd": f"/verif/check {pid} --tier {tier}",
-            "trusted_base": ["pyvc VC generator and symbolic semantics (DESIGN 2.2)", "z3 5.1 (E-matching, mbqi off)", "object-model declarations contracts/model_decl.py",
+            "trusted_base": ["pyvc VC generator and symbolic semantics (DESIGN 2.2)", "z3 5.1 and z3 4.8.12 (E-matching, mbqi off; in-process stage, then fresh-process portfolio)", "object-model declarations contracts/model_decl.py",
                              "paper composition lemma for this property (DESIGN section 4)"],
             "explanation": ("Function contracts on the real AST of /repo discharged by z3; static frame scans; plus labelled bounded stand-ins run natively. "
                             "Level is 'proof' only when every generated obligation is discharged and nothing was degraded to bounded."),
             "functions_under_contract": per_fn,
             "static_checks": static.get("detail", []),
-            "backends": {"z3": n_dis},
+            "backends": backend_counts(results),
             "solver_time_s": round(solver_time, 2),
             "degraded_to_bounded": degraded[:60],
             "bounded": {k: v for k, v in bounded.items() if k not in ("failures",)},
